@@ -98,3 +98,24 @@ Definition scan_raw (s : str) : raw_result :=
   if negb (has_opener s) then RNone
   else if negb (plain_raw s) then RComplex
   else RSubs (scan (S (length s)) s).
+
+(* analyzer._has_unclosed_arith: some "$((" whose inner parenthesis is not closed by "))" *)
+Fixpoint arith_closed (depth : nat) (s : str) : bool :=
+  match s with
+  | [] => false
+  | c :: r =>
+      if N.eqb c LP then arith_closed (S depth) r
+      else if N.eqb c RP then
+        match depth with
+        | 2%nat => match r with c2 :: _ => N.eqb c2 RP | [] => false end
+        | S d => arith_closed d r
+        | O => false
+        end
+      else arith_closed depth r
+  end.
+
+Fixpoint unclosed_arith (s : str) : bool :=
+  match s with
+  | [] => false
+  | _ :: r => (prefixb [DOL; LP; LP] s && negb (arith_closed 2 (skipn 3 s))) || unclosed_arith r
+  end.
